@@ -266,6 +266,16 @@ pub fn extremes_uncached(f: Family, d: &[u8]) -> Vec<Vec<u8>> {
             v.push(with(&h, b"\0x\0\0x\0\0x\0" as &[u8]));
             v.push(with(&[0, 0, 0, 0, 2], &[0]));
             v.push(with(&[1, 0, 0, 0, 1], &[0]));
+            // the largest datagram UDP can carry: 255 announced rows and as many one-letter column names as fit, no cells at all
+            // (what the client may reserve for it is bounded by how much of the datagram it asks for)
+            for rows in [0xFFu8, 0x01] {
+                let mut x = with(&h, b"hostname\0h\0mapname\0m\0password\x000\0maxplayers\x001\0\0\0" as &[u8]);
+                x.push(rows);
+                while x.len() + 2 <= MAX_DATAGRAM {
+                    x.extend_from_slice(b"a\0");
+                }
+                v.push(x);
+            }
         }
         Family::Gs3 | Family::Jc2m => {
             let h = [0u8, 0, 0, 0, 1];
